@@ -548,7 +548,7 @@ def specs(prop, tier):
         if prop in ("C01", "C02"):
             lst += [("M5", 3, dict(junction_init=True)), ("M5C", 3, dict(junction_init=True)), ("M5R", 3, dict(junction_init=True)), ("M8", 4, {}), ("M8J", 4, {})] if q else [("M5R", 3, dict(junction_init=True)), ("M8J", 4, {}), ("M8R", 4, {})]
     elif prop == "C04":
-        lst = [("M4", 3, dict(junction_init=True)), ("M5C", 3, dict(junction_init=True)), ("M5F", 3, dict(junction_init=True)), ("M5", 3, dict(junction_init=True)), ("M5R", 3, dict(junction_init=True)), ("M6", 3, dict(junction_init=True)), ("M8", 4, {}), ("M8J", 4, {}), ("M12", 3, dict(junction_init=True))]
+        lst = [("M4", 3, dict(junction_init=True)), ("M5C", 3, dict(junction_init=True)), ("M5F", 3, dict(junction_init=True)), ("M5", 3, dict(junction_init=True)), ("M5R", 3, dict(junction_init=True)), ("M6", 3, dict(junction_init=True)), ("M6", 3, dict(junction_init=True, pops=2, transfers=1)), ("M8", 4, {}), ("M8J", 4, {}), ("M12", 3, dict(junction_init=True))]
         if not q:
             lst += [("M8R", 4, {})]
     elif prop == "C05":
